@@ -247,6 +247,14 @@ def rule_expected(rep):
         repo = rep.repo
         f = repo.func("parglare.glr.GLRParser._enter_error_reporting")
         outer = next((l for l in walk_no_nested(f.node) if isinstance(l, ast.For) and unparse(l.iter) == "farthest_heads"), None)
+        explicit = False
+        if outer is None:
+            # the same prefix written as an explicit loop: for head in <sorted heads>: if head.position != last_head.position: break
+            for l in walk_no_nested(f.node):
+                if isinstance(l, ast.For) and unparse(l.iter) == "self._last_shifted_heads" and isinstance(l.target, ast.Name) and l.body \
+                        and isinstance(l.body[0], ast.If) and len(l.body[0].body) == 1 and isinstance(l.body[0].body[0], ast.Break) and not l.body[0].orelse \
+                        and unparse(l.body[0].test) in (f"{l.target.id}.position != last_head.position", f"last_head.position != {l.target.id}.position"):
+                    outer, explicit = l, True
         r.need(outer is not None, "_enter_error_reporting: loop over the farthest heads not found")
         inner = next((l for l in outer.body if isinstance(l, ast.For)), None)
         r.need(inner is not None, "_enter_error_reporting: loop over possible lookaheads not found")
@@ -260,7 +268,7 @@ def rule_expected(rep):
         _check_registration(r, inner, "h", unparse(inner.target), "_enter_error_reporting")
         t = unparse(f.node)
         r.check(
-            "farthest_heads = takewhile(lambda h: h.position == last_head.position, self._last_shifted_heads)" in t,
+            explicit or "farthest_heads = takewhile(lambda h: h.position == last_head.position, self._last_shifted_heads)" in t,
             "all heads at the farthest position take part",
             "_enter_error_reporting:farthest-heads",
             "not all heads at the farthest position are simulated",
